@@ -190,6 +190,43 @@ func (p *PolicyManager) syncPods() {
 		}
 	}
 	wg.Wait()
+	p.cleanupStalePodChains()
+}
+
+// cleanupStalePodChains deletes the chains, and the rules jumping to them, of pods which are no longer on this node,
+// e.g. because their delete event was missed or they vanished while galaxy was not running
+func (p *PolicyManager) cleanupStalePodChains() {
+	iptablesSaveRaw := bytes.NewBuffer(nil)
+	if err := p.iptableHandle.SaveInto(utiliptables.TableFilter, iptablesSaveRaw); err != nil {
+		glog.Warningf("failed to execute iptables-save, not cleaning up stale pod chains: %v", err)
+		return
+	}
+	// list the pods after the chains: a chain created by a pod event handler in the meantime belongs to a pod which is
+	// in the cache already
+	localPodChains := sets.NewString()
+	if p.podCachedInformer.HasSynced() {
+		pods, err := p.podLister.Pods(v1.NamespaceAll).List(labels.Everything())
+		if err != nil {
+			glog.Warningf("failed to list pods: %v", err)
+			return
+		}
+		nodeHostName := k8s.GetHostname()
+		for i := range pods {
+			if pods[i].Spec.NodeName == nodeHostName {
+				localPodChains.Insert(podChainName(pods[i]))
+			}
+		}
+	}
+	for chain := range utiliptables.GetChainLines(utiliptables.TableFilter, iptablesSaveRaw.Bytes()) {
+		if !strings.HasPrefix(string(chain), podChainPrefix+"-") || localPodChains.Has(string(chain)) {
+			continue
+		}
+		glog.Infof("deleting chain %s of a pod which is no longer on this node", string(chain))
+		gone := &corev1.Pod{ObjectMeta: v1.ObjectMeta{Name: "unknown", Namespace: "unknown"}}
+		if err := p.deletePodChain(gone, chain); err != nil {
+			glog.Warning(err)
+		}
+	}
 }
 
 func (p *PolicyManager) syncNetworkPolices() {
@@ -1010,7 +1047,10 @@ func (p *PolicyManager) ensureBasicChain() error {
 
 // deletePodChains deletes pod chain and rules in GLX-INGRESS/GLX-EGRESS chain
 func (p *PolicyManager) deletePodChains(pod *corev1.Pod) error {
-	podChain := utiliptables.Chain(podChainName(pod))
+	return p.deletePodChain(pod, utiliptables.Chain(podChainName(pod)))
+}
+
+func (p *PolicyManager) deletePodChain(pod *corev1.Pod, podChain utiliptables.Chain) error {
 	// we don't know pod ip, so delete pod rules in GLX-INGRESS/GLX-EGRESS by keyword
 	if err := p.deletePodRuleByKeyword(pod, ingressChain, string(podChain), ""); err != nil {
 		glog.Warning(err)
